@@ -39,8 +39,10 @@ def rand_action(rng, nc, nt):
         return "timer %d %d" % (t, rng.choice([1, 2, 3, 5]))
     if r < 0.6:
         return "remove %d" % c
-    if r < 0.7:
+    if r < 0.66:
         return "write %d %d %s" % (c, rng.randint(1, 6), c13.rand_outcome(rng))
+    if r < 0.7:
+        return "writeself %d %s" % (rng.randint(1, 6), c13.rand_outcome(rng))      # e.g. the next chunk from inside onWrite
     if r < 0.78:
         return "suspend %d" % c
     if r < 0.86:
@@ -79,12 +81,19 @@ def rand_net_exec(rng, nops):
                 steps.append("L%d" % rng.randint(1, 2) if k < 0.3 else ("E%d" % rng.randint(1, 2) if k < 0.55 else ("A" if k < 0.8 else ("I%d" % c if k < 0.9 else "T"))))
             for _ in range(rng.choice([0, 0, 1, 2])):
                 ops.append("oncb " + rng.choice(["rmlisten %d" % l, "rmconn %d" % e, "remove %d" % c, "reject", "keep", "nop", "write %d 3 F" % c,
-                                                 "rmlisten %d;rmconn %d" % (l, e)]))
+                                                 "rmlisten %d;rmconn %d" % (l, e),
+                                                 # the new client itself, from inside onAccepted / onConnected
+                                                 "writeself %d %s" % (rng.randint(2, 9), c13.rand_outcome(rng)), "suspendself", "rmself",
+                                                 "suspendself;writeself 4 W", "writeself 5 P2;suspendself"]))
             ops.append("run " + " ".join(steps))
-        elif r < 0.95:
-            ops.append("write %d %d F" % (c, rng.randint(1, 5)))
+        elif r < 0.93:
+            ops.append("write %d %d %s" % (c, rng.randint(1, 5), rng.choice(["F", "F", c13.rand_outcome(rng)])))
+        elif r < 0.96:
+            ops.append(rng.choice(["psend %d 3" % c, "psend %d 1" % c, "suspend %d" % c, "resume %d" % c]))
         else:
             ops.append("remove %d" % c)
+    # end-of-history probe as in rand_exec: a backlog that is still there was never flushed
+    ops += ["resume %d" % c for c in range(1, 4)] + ["run", "run A A A A A A"] + ["check %d" % c for c in range(1, 4)]
     return ops
 
 
@@ -262,7 +271,7 @@ def run(ctx):
             walks = walks[::4]
         check_executions(ctx, binary, [[c13.label_to_op(*x) for x in w] + c13.TAIL for w in walks], "graph_clients")
     nexec, nops = (800, 40) if ctx.quick else (10000, 60)
-    execs = [rand_exec(ctx.rng, nops) for _ in range(nexec)]
+    execs = c13.directed_execs() + [rand_exec(ctx.rng, nops) for _ in range(nexec)]
     check_executions(ctx, binary, execs, "random")
     # listeners and establishers: acceptable / connected sockets dispatched, nothing after remove (also from callbacks)
     execs = [rand_net_exec(ctx.rng, nops) for _ in range(nexec // 2)]
